@@ -8,7 +8,7 @@ import numpy as np
 
 from . import env
 
-N_FAULT_SLOTS = 4
+N_FAULT_SLOTS = 8
 
 _classes = {}
 # set by a check before it lets a driver build prop_data: callable returning the fault
